@@ -373,8 +373,14 @@ def r09j(F):
 	fu = F.func(fn)
 	ex = Expr(fu)
 	found = False
-	for l, nm in fu.vars.items():
-		if nm == 'new_mon_id':
+	# the id given to the preimage update when held updates exist: the value stored into `<update local>.update_id` (not through the held list)
+	srcs = []
+	for bi, si, st in fu.stmts():
+		fl = place_fields(st[1])
+		if fl == ['update_id'] and st[2][0] == 'use' and st[2][1][0] in ('c', 'm') and len(st[2][1][1]) == 1:
+			srcs.append(st[2][1][1][0])
+	for l in srcs:
+		if True:
 			found = True
 			e = ex.of_local(l)
 			txt = expr_str(e)
@@ -395,7 +401,7 @@ def r09j(F):
 			walk(e)
 			out.append(Result('09.j', first, ('ok:' if first else 'shape:') + 'renumber-first', 'a preimage update flying ahead of blocked updates takes id %s (expected the id of blocked_monitor_updates[0])' % txt[:120], 1, where=F.where(fn)))
 	if not found:
-		out.append(Result('09.j', False, 'anchor:new_mon_id', 'get_update_fulfill_htlc_and_commit: renumbering site not found'))
+		out.append(Result('09.j', False, 'anchor:renumber-site', 'get_update_fulfill_htlc_and_commit: no store `update.update_id = <local>` (renumbering of the preimage update) found'))
 	# ChainMonitor::watch_channel_internal: an InProgress initial persist is recorded as pending
 	fn = CHM + 'watch_channel_internal'
 	fu = F.func(fn)
